@@ -998,7 +998,8 @@ def translate(m, roots):
                 if t in ('global', 'constant'): break
             ty = p.type()
             cn = 'g_' + mangle(name)
-            if external or p.done(): gdefs[name] = 'extern %s;' % g.decl(ty, cn)
+            if (external or p.done()) and name.startswith('@_ZTV'): gdefs[name] = '%s; /* vtable of a libstdc++ class: address identity only */' % g.decl(ty, cn)
+            elif external or p.done(): gdefs[name] = 'extern %s;' % g.decl(ty, cn)
             else: gdefs[name] = '%s = %s;' % (g.decl(ty, cn), const_init(fg0, p, ty))
     # types: order named structs by by-value dependency
     order = []; state = {}
